@@ -123,39 +123,66 @@ def run(ctx, res):
     res.floor("C01.R4", 2)
     nxt = prog.need("reader_iter_next", "mtbl/reader.c")
     res.saw(nxt)
-    evp = APE.run(prog, cg, nxt, bound=APE.BOUND)
+    # decided by value on the paths of next with the file's internal functions evaluated as part of it, except the leaf block
+    # loaders (static functions returning a block), which stay calls
+    RU = "mtbl/reader.c"
+    loaders = [g for g in prog.unit_funcs(RU, helpers=True) if g.file.endswith("reader.c") and g.d.get("static")
+               and (g.d.get("cret") or g.d.get("ret") or "").replace(" ", "") == "structblock*"]
+    lnames = set(g.name for g in loaders)
+    leaf = [g.name for g in loaders if not any(c.get("callee") in lnames and c.get("callee") != g.name for c in g.calls())]
+    if not leaf:
+        raise BrokenAnalysis("no block-loading function (static, returning struct block *) found in reader.c")
+    evp = APE.run(prog, cg, nxt, bound=APE.BOUND, inline=("*static",), opaque_calls=tuple(leaf))
     seen = 0
     for p in evp.paths:
         if p.end != "exit":
             continue
         evs = [e for e in p.events if e.kind != "branch"]
-        calls = [e for e in evs if e.kind == "call"]
-        gets = [e for e in calls if e.a == "block_iter_get" and canon(call_args(e.node)[0]).endswith("->bi")]
+        calls = [(i, e) for i, e in enumerate(evs) if e.kind == "call"]
+        gets = [(i, e) for i, e in calls if e.a == "block_iter_get" and e.b and held_in(evs, i, e.b[0], "bi")]
         if not gets:
             continue
-        c0 = p.cons.get((APE.vstr(gets[0].c), "#0"))
+        c0 = p.cons.get((APE.vstr(gets[0][1].c), "#0"))
         if c0 != frozenset((EQ,)):
             continue
         # block exhausted
         seen += 1
-        after = calls[calls.index(gets[0]) + 1:]
-        names = [e.a for e in after]
-        adv = [e for e in after if e.a == "block_iter_next" and canon(call_args(e.node)[0]).endswith("->index_iter")]
+        i0 = gets[0][0]
+        after = [(i, e) for i, e in calls if i > i0]
+        names = [e.a for i, e in after]
+        adv = [(i, e) for i, e in after if e.a == "block_iter_next" and e.b and held_in(evs, i, e.b[0], "index_iter")]
         if len(adv) != 1:
             res.bad("C01.R4", site(nxt, "advance-index"), "an exhausted block advances the index iterator %d times" % len(adv), nxt.loc(nxt.body), p.describe(nxt))
             continue
-        ca = p.cons.get((APE.vstr(adv[0].c), "#0"))
+        ia, ea = adv[0]
+        ca = p.cons.get((APE.vstr(ea.c), "#0"))
         if ca == frozenset((EQ,)):
             res.check(p.ret() == ("c", FAILV), "C01.R4", site(nxt, "index-exhausted"), "no further block: failure", "end of table does not return failure", None, p.describe(nxt))
             continue
-        ld = [e for e in after if e.a == "get_block_at_index"]
-        init = [e for e in after if e.a == "block_iter_init"]
-        first = [e for e in after if e.a == "block_iter_seek_to_first"]
-        good = len(ld) == 1 and canon(call_args(ld[0].node)[1]).endswith("->index_iter") and len(init) == 1 and init[0].b[0] == ld[0].c and \
-            len(first) == 1 and first[0].b[0] == init[0].c and after.index(adv[0]) < after.index(ld[0]) < after.index(init[0]) < after.index(first[0])
-        # the old block and iterator are released first
-        rel = [e.a for e in after[:after.index(adv[0])]]
-        good = good and "block_destroy" in rel and "block_iter_destroy" in rel
+        # block_iter_next() returned true: the iterator has an entry (its contract, rules/readrule.py); a path on which the
+        # following block_iter_get() of the same iterator fails does not exist
+        if any(e.a == "block_iter_get" and i > ia and e.b and e.b[0] == ea.b[0] and p.cons.get((APE.vstr(e.c), "#0")) == frozenset((EQ,)) for i, e in after):
+            seen -= 1
+            continue
+        ld = [(i, e) for i, e in after if e.a in leaf and i > ia]
+        init = [(i, e) for i, e in after if e.a == "block_iter_init" and i > ia]
+        first = [(i, e) for i, e in after if e.a == "block_iter_seek_to_first" and i > ia]
+        good = len(ld) == 1 and len(init) == 1 and len(first) == 1
+        if good:
+            (il, el), (ii, ei), (if_, ef) = ld[0], init[0], first[0]
+            # the offset the block is loaded from: decoded from the value of the index entry the advance moved to
+            gl = prog.func(el.a, RU)
+            offs = [el.b[k] for k, prm in enumerate(gl.params) if k < len(el.b) and
+                    (prm.get("ct") or prm.get("t") or "") in ("unsigned long", "uint64_t", "unsigned long long", "size_t")]
+            src = False
+            for i, e in after:
+                if e.a == "block_iter_get" and ia < i < il and e.b and held_in(evs, i, e.b[0], "index_iter") and e.outs.get(3) is not None:
+                    for j, d_ in after:
+                        if d_.a == "mtbl_varint_decode64" and i < j < il and d_.b and d_.b[0] == e.outs.get(3) and offs and d_.outs.get(1) == offs[0]:
+                            src = True
+            good = src and ei.b[0] == el.c and ef.b[0] == ei.c and ia < il < ii < if_
+            rel = [e.a for i, e in after if i < il]
+            good = good and "block_destroy" in rel and "block_iter_destroy" in rel
         res.check(good, "C01.R4", site(nxt, "next-block"), "next block: old block released, index advanced once, block it names loaded, positioned at its first entry",
                   "block walk does %s" % names[:10], nxt.loc(nxt.body), p.describe(nxt))
     if seen == 0:
